@@ -28,6 +28,9 @@ FIXED = [
     (2, 'S C'), (2, 'H C'), (3, 'C X0 C X1 C X2 C'), (2, 'C C C R0:8 G0 X0 R1:9'),
     # W<k>: client k pipelines requests without ever reading, so that its session blocks in a reply write
     (1, 'C W0 C'), (2, 'C W0 S'), (1, 'C W0 H'), (2, 'C C W0 R1:3 C R2:4'), (2, 'C W0 X0 C C'),
+    # before the fix the blocked session never drained its 8-slot command queue: the 9th decode-level command
+    # blocked ServerTask::apply_command, i.e. the accept loop - no further connection served, no shutdown possible
+    (2, 'C W0 D D D D D D D D D D C R1:5 S'),
 ]
 
 
